@@ -18,7 +18,7 @@ structure Res where
   vals : List Val := []   -- receive forms: the values received; send forms: the values handed back
   cnt : Nat := 0          -- send forms: how many input items were accepted; receive forms: how many were received
   val : PVal := .none
-  deriving DecidableEq, Repr, Inhabited
+  deriving DecidableEq, Repr, Inhabited, Hashable
 
 instance : BEq Res := ⟨fun a b => decide (a = b)⟩
 
